@@ -239,6 +239,23 @@ impl G {
         f
     }
 
+    /// like `fields(true)` for AdjacencyListWeighted<usize>: the model keeps
+    /// weights in an i64, a usize weight above i64::MAX is stored as its
+    /// two's complement bit pattern (`w as i64`) and printed here as unsigned
+    pub fn fields_unsigned(&self) -> Vec<(String, J)> {
+        let mut f = self.fields(true);
+        if let Some((_, J::Arr(arcs))) = f.iter_mut().find(|(k, _)| k == "arcs") {
+            for a in arcs {
+                if let J::Arr(t) = a {
+                    if let Some(J::Num(w)) = t.get_mut(2) {
+                        *w = (*w as i64) as u64 as i128;
+                    }
+                }
+            }
+        }
+        f
+    }
+
     pub fn json(&self, weighted: bool) -> J {
         J::Obj(self.fields(weighted))
     }
@@ -257,7 +274,19 @@ impl G {
             if a.len() < 2 {
                 return Err("arc needs [u, v] or [u, v, w]".into());
             }
-            let w = if a.len() > 2 { a[2].i64()? } else { 1 };
+            // weights above i64::MAX (usize weights) keep their bit pattern
+            let w = if a.len() > 2 {
+                let n = a[2].i128()?;
+                if n >= i64::MIN as i128 && n <= i64::MAX as i128 {
+                    n as i64
+                } else if n > 0 && n <= u64::MAX as i128 {
+                    n as u64 as i64
+                } else {
+                    return Err(format!("weight {n} does not fit in 64 bits"));
+                }
+            } else {
+                1
+            };
             let (u, v) = (a[0].usize()?, a[1].usize()?);
             if u == v || !g.verts.contains(&u) || !g.verts.contains(&v) {
                 return Err(format!("arc {u}->{v} is not valid for the vertex set"));
@@ -430,7 +459,8 @@ pub fn relax_dist(g: &G, src: &[usize]) -> Vec<Option<u128>> {
         let mut ch = false;
         for (&(u, v), &w) in &g.arcs {
             if let Some(du) = d[u] {
-                let c = du + w as u128;
+                // usize weights: the i64 holds the bit pattern
+                let c = du + w as u64 as u128;
                 if d[v].is_none_or(|dv| c < dv) {
                     d[v] = Some(c);
                     ch = true;
@@ -441,6 +471,29 @@ pub fn relax_dist(g: &G, src: &[usize]) -> Vec<Option<u128>> {
             return d;
         }
     }
+}
+
+/// the largest weight of a simple path starting at one of `src` (usize
+/// weights, summed in u128): the "path sums fit in usize" precondition of
+/// C03 / C05
+pub fn largest_simple_path_sum_unsigned(g: &G, src: &[usize]) -> u128 {
+    fn go(g: &G, v: usize, acc: u128, on: &mut Vec<bool>, m: &mut u128) {
+        *m = (*m).max(acc);
+        for x in g.out(v) {
+            if !on[x] {
+                on[x] = true;
+                go(g, x, acc + g.w(v, x).unwrap() as u64 as u128, on, m);
+                on[x] = false;
+            }
+        }
+    }
+    let mut m = 0;
+    for &s in src {
+        let mut on = vec![false; g.order()];
+        on[s] = true;
+        go(g, s, 0, &mut on, &mut m);
+    }
+    m
 }
 
 /// Brute force over all simple paths from `s`: (a negative circuit is
@@ -551,6 +604,30 @@ pub fn structured(kind: &str, n: usize, weights: &[i64]) -> G {
 pub const STRUCTURED_KINDS: [&str; 7] =
     ["path", "revpath", "circuit", "cycle", "star", "outstar", "bintree"];
 pub const BOUNDARY_ORDERS: [usize; 6] = [33, 64, 65, 70, 128, 130];
+
+/// Orders above the worker-thread count and not a multiple of the chunk size:
+/// AdjacencyList::{is_semicomplete, complement, union, degree_sequence,
+/// complete} and AdjacencyMap::union chunk their rows by
+/// available_parallelism().
+pub const THREAD_ORDERS: [usize; 9] = [17, 18, 19, 31, 33, 35, 50, 67, 130];
+
+/// the transitive tournament u -> v for u < v, with every `flip`-th arc
+/// (in lexicographic order) reversed
+pub fn tournament(n: usize, flip: usize) -> G {
+    let mut g = G::new(n);
+    let mut i = 0usize;
+    for u in 0..n {
+        for v in u + 1..n {
+            i += 1;
+            if flip > 0 && i % flip == 0 {
+                let _ = g.arcs.insert((v, u), 1);
+            } else {
+                let _ = g.arcs.insert((u, v), 1);
+            }
+        }
+    }
+    g
+}
 
 /// ids next to word-size boundaries that exist in 0..n, plus both ends
 pub fn boundary_ids(n: usize) -> Vec<usize> {
